@@ -76,6 +76,23 @@ def make_specs(ctx: Ctx, n):
             kind = "arbitrary arrays" + (" passed to the combined target" if tgt != "simulate" else "")
         plan[0]["np_init"] = np_init
         specs.append(mk_spec(i, m, ["c02"], plan, label=f"{label}; {kind}" + ("; float64" if i % 5 == 4 else ""), x64=i % 5 == 4))
+    # every period is a different problem although no signature of utility, constraints or transitions mentions _period: the
+    # period enters only through an auxiliary function (three or more periods, so that there are middle periods)
+    r2 = ctx.rng("period-through-auxiliary")
+    for j in range(max(4, n // 20)):
+        m = gen.rand_model(r2, {"p_period_util": 0.0, "p_period_aux": 1.0, "p_period_next": 0.0, "p_per_filter": 0.0, "p_w": 1.0, "p_a": 1.0,
+                                "p_h_stoch": 0.0, "p_e": 0.0, "p_reduction_aux": 0.0, "T": [3, 4], "max_cells": 800})
+        init = qinit(gen.rand_initial_states(r2, m, r2.choice([3, 5])))
+        plan = [{"op": "simulate", "target": "solve_and_simulate" if j % 2 else "simulate", "init": init, "seed": r2.randrange(10**6), "vsrc": "own"}]
+        specs.append(mk_spec(len(specs), m, ["c02"], plan, label="period enters only through an auxiliary function, T >= 3"))
+    # one large batch (more rows per period than 2^16): 12 agents spread over it are judged row by row
+    from ..pipeline import LARGE_N, embed_positions
+
+    m = gen.rand_model(r2, {"p_w": 1.0, "p_c": 1.0, "T": [2], "p_r": 1.0, "p_e": 0.0, "max_cells": 600})
+    init = qinit(gen.rand_initial_states(r2, m, 12))
+    specs.append(mk_spec(len(specs), m, ["c02"], [{"op": "simulate", "target": "solve_and_simulate", "init": init, "seed": 7, "vsrc": "own",
+                                                    "embed": {"n_full": LARGE_N[1], "positions": embed_positions(r2, 12, LARGE_N[1])}}],
+                         label=f"large batch ({LARGE_N[1]} agents), 12 agents judged"))
     return specs
 
 
